@@ -4,16 +4,18 @@
 
   Setting: a real inner-product space `E` with an orthonormal basis `b` (finite index type) in which the
   operator `B` is diagonal, `B (b i) = lam i • b i` — for a Gram operator `AᴴA` on a finite-dimensional space
-  such a basis exists (spectral theorem, used in `Props/C17.lean`).  One eigenvalue `lam i0 > 0` dominates:
-  `0 ≤ lam i ≤ r · lam i0` for `i ≠ i0`.  The start has a non-zero component along `b i0`.
+  such a basis exists (spectral theorem, used in `Props/C17.lean`).  The largest eigenvalue `lam1 > 0` is attained on
+  the index set `D` (its eigenspace — multiplicity is allowed: a complex operator seen as a real one has every
+  eigenvalue twice) and separated from the rest: `0 ≤ lam i ≤ r · lam1` for `i ∉ D`.  The start has a non-zero
+  component in the dominant eigenspace.
 
-  Invariant carried through `powerLoop` (no powers of `B` are needed): with `c = ⟨b i0, v⟩` and
-  `tail v = ‖v‖² − c²` (the squared norm of the part of `v` orthogonal to `b i0`),
+  Invariant carried through `powerLoop` (no powers of `B` are needed): with `head v = Σ_{i∈D} ⟨b i, v⟩²` and
+  `tail v = ‖v‖² − head v` (squared norms of the parts of `v` inside / orthogonal to the dominant eigenspace),
 
-      c ≠ 0   and   tail v ≤ q · c²
+      head v > 0   and   tail v ≤ q · head v
 
   is mapped by one iteration `v ↦ Bv/‖Bv‖` to the same statement with `r²·q`; and for every such `v`
-  the Rayleigh quotient satisfies `lam i0 − lam i0·q ≤ rq B v ≤ lam i0`.
+  the Rayleigh quotient satisfies `lam1 − lam1·q ≤ rq B v ≤ lam1`.
 -/
 import Scico.Proofs.Estim
 import Scico.Proofs.EstimNorms
@@ -71,79 +73,108 @@ theorem inner_eq_sum_co (b : OrthonormalBasis ι ℝ E) (v w : E) : inner ℝ v 
 theorem norm_sq_eq_sum_co (b : OrthonormalBasis ι ℝ E) (v : E) : ‖v‖ * ‖v‖ = ∑ i, co b v i * co b v i := by
   rw [← real_inner_self_eq_norm_mul_norm, inner_eq_sum_co b]
 
-/-- squared norm of the component of `v` orthogonal to `b i0` -/
-noncomputable def tail (b : OrthonormalBasis ι ℝ E) (i0 : ι) (v : E) : ℝ := ‖v‖ * ‖v‖ - co b v i0 * co b v i0
+/-- squared norm of the component of `v` in the span of the `b i`, `i ∈ D` -/
+noncomputable def head (b : OrthonormalBasis ι ℝ E) (D : Finset ι) (v : E) : ℝ := ∑ i ∈ D, co b v i * co b v i
 
-theorem tail_eq_sum (b : OrthonormalBasis ι ℝ E) (i0 : ι) (v : E) :
-    tail b i0 v = ∑ i ∈ Finset.univ.erase i0, co b v i * co b v i := by
-  unfold tail
-  rw [norm_sq_eq_sum_co b, ← Finset.add_sum_erase Finset.univ (fun i => co b v i * co b v i) (Finset.mem_univ i0)]
+/-- squared norm of the component of `v` orthogonal to it -/
+noncomputable def tail (b : OrthonormalBasis ι ℝ E) (D : Finset ι) (v : E) : ℝ := ‖v‖ * ‖v‖ - head b D v
+
+theorem tail_eq_sum (b : OrthonormalBasis ι ℝ E) (D : Finset ι) (v : E) :
+    tail b D v = ∑ i ∈ Dᶜ, co b v i * co b v i := by
+  unfold tail head
+  rw [norm_sq_eq_sum_co b, ← Finset.sum_add_sum_compl D (fun i => co b v i * co b v i)]
   ring
 
-theorem tail_nonneg (b : OrthonormalBasis ι ℝ E) (i0 : ι) (v : E) : 0 ≤ tail b i0 v := by
+theorem head_nonneg (b : OrthonormalBasis ι ℝ E) (D : Finset ι) (v : E) : 0 ≤ head b D v :=
+  Finset.sum_nonneg (fun _ _ => mul_self_nonneg _)
+
+theorem tail_nonneg (b : OrthonormalBasis ι ℝ E) (D : Finset ι) (v : E) : 0 ≤ tail b D v := by
   rw [tail_eq_sum]
   exact Finset.sum_nonneg (fun i _ => mul_self_nonneg _)
 
-theorem tail_smul (b : OrthonormalBasis ι ℝ E) (i0 : ι) (s : ℝ) (v : E) :
-    tail b i0 (s • v) = s * s * tail b i0 v := by
+theorem head_smul (b : OrthonormalBasis ι ℝ E) (D : Finset ι) (s : ℝ) (v : E) :
+    head b D (s • v) = s * s * head b D v := by
+  unfold head
+  rw [Finset.mul_sum]
+  apply Finset.sum_congr rfl
+  intro i _
+  rw [co_smul]; ring
+
+theorem tail_smul (b : OrthonormalBasis ι ℝ E) (D : Finset ι) (s : ℝ) (v : E) :
+    tail b D (s • v) = s * s * tail b D v := by
   unfold tail
-  rw [co_smul, norm_smul, Real.norm_eq_abs]
+  rw [head_smul, norm_smul, Real.norm_eq_abs]
   have : |s| * |s| = s * s := abs_mul_abs_self s
-  calc |s| * ‖v‖ * (|s| * ‖v‖) - s * co b v i0 * (s * co b v i0)
-      = (|s| * |s|) * (‖v‖ * ‖v‖) - s * s * (co b v i0 * co b v i0) := by ring
-    _ = s * s * (‖v‖ * ‖v‖ - co b v i0 * co b v i0) := by rw [this]; ring
+  calc |s| * ‖v‖ * (|s| * ‖v‖) - s * s * head b D v
+      = (|s| * |s|) * (‖v‖ * ‖v‖) - s * s * head b D v := by ring
+    _ = s * s * (‖v‖ * ‖v‖ - head b D v) := by rw [this]; ring
+
+theorem head_zero (b : OrthonormalBasis ι ℝ E) (D : Finset ι) : head b D (0 : E) = 0 := by
+  unfold head co; simp
+
+theorem head_singleton (b : OrthonormalBasis ι ℝ E) (i0 : ι) (v : E) :
+    head b {i0} v = co b v i0 * co b v i0 := by
+  unfold head; rw [Finset.sum_singleton]
 
 section gap
 
-variable {B : E →L[ℝ] E} {b : OrthonormalBasis ι ℝ E} {lam : ι → ℝ} {i0 : ι} {r : ℝ}
+variable {B : E →L[ℝ] E} {b : OrthonormalBasis ι ℝ E} {lam : ι → ℝ} {D : Finset ι} {lam1 r : ℝ}
 
-/-- the dominance hypothesis: `lam i0 > 0` and every other eigenvalue lies in `[0, r·lam i0]` -/
-structure Dominant (lam : ι → ℝ) (i0 : ι) (r : ℝ) : Prop where
-  pos : 0 < lam i0
+/-- the dominance hypothesis: the eigenvalue `lam1 > 0` is attained exactly on `D` (the dominant eigenspace) and every
+    other eigenvalue lies in `[0, r·lam1]` -/
+structure Dominant (lam : ι → ℝ) (D : Finset ι) (lam1 r : ℝ) : Prop where
+  pos : 0 < lam1
   r_nonneg : 0 ≤ r
   r_le_one : r ≤ 1
-  others : ∀ i, i ≠ i0 → 0 ≤ lam i ∧ lam i ≤ r * lam i0
+  top : ∀ i, i ∈ D → lam i = lam1
+  others : ∀ i, i ∉ D → 0 ≤ lam i ∧ lam i ≤ r * lam1
 
-theorem apply_ne_zero_of_co (hB : IsDiagIn B b lam) (hd : Dominant lam i0 r) (v : E) (hc : co b v i0 ≠ 0) :
+theorem head_apply (hB : IsDiagIn B b lam) (hd : Dominant lam D lam1 r) (v : E) :
+    head b D (B v) = lam1 * lam1 * head b D v := by
+  unfold head
+  rw [Finset.mul_sum]
+  apply Finset.sum_congr rfl
+  intro i hi
+  rw [co_apply hB, hd.top i hi]; ring
+
+theorem apply_ne_zero_of_head (hB : IsDiagIn B b lam) (hd : Dominant lam D lam1 r) (v : E) (hc : 0 < head b D v) :
     B v ≠ 0 := by
   intro h
-  have : co b (B v) i0 = 0 := by rw [h]; simp [co]
-  rw [co_apply hB] at this
-  rcases mul_eq_zero.1 this with h1 | h1
-  · exact absurd h1 (ne_of_gt hd.pos)
-  · exact hc h1
+  have h0 : head b D (B v) = 0 := by rw [h, head_zero]
+  rw [head_apply hB hd] at h0
+  have : 0 < lam1 * lam1 * head b D v := mul_pos (mul_pos hd.pos hd.pos) hc
+  linarith
 
 /-- one application of `B` contracts the tail relative to the dominant component by `r²` -/
-theorem tail_apply_le (hB : IsDiagIn B b lam) (hd : Dominant lam i0 r) (v : E) :
-    tail b i0 (B v) ≤ (r * lam i0) * (r * lam i0) * tail b i0 v := by
+theorem tail_apply_le (hB : IsDiagIn B b lam) (hd : Dominant lam D lam1 r) (v : E) :
+    tail b D (B v) ≤ (r * lam1) * (r * lam1) * tail b D v := by
   rw [tail_eq_sum, tail_eq_sum, Finset.mul_sum]
   apply Finset.sum_le_sum
   intro i hi
-  have hne : i ≠ i0 := (Finset.mem_erase.1 hi).1
-  obtain ⟨h0, h1⟩ := hd.others i hne
+  obtain ⟨h0, h1⟩ := hd.others i (Finset.mem_compl.1 hi)
   rw [co_apply hB]
-  have hsq : lam i * lam i ≤ (r * lam i0) * (r * lam i0) := mul_self_le_mul_self h0 h1
+  have hsq : lam i * lam i ≤ (r * lam1) * (r * lam1) := mul_self_le_mul_self h0 h1
   have hc : 0 ≤ co b v i * co b v i := mul_self_nonneg _
   nlinarith [mul_le_mul_of_nonneg_right hsq hc]
 
 /-- the invariant is propagated by one (normalised) iteration -/
-theorem inv_nxt (hB : IsDiagIn B b lam) (hd : Dominant lam i0 r) (v : E) (hc : co b v i0 ≠ 0) (q : ℝ)
-    (hq : tail b i0 v ≤ q * (co b v i0 * co b v i0)) :
-    co b (nxt B v) i0 ≠ 0 ∧ tail b i0 (nxt B v) ≤ (r * r * q) * (co b (nxt B v) i0 * co b (nxt B v) i0) := by
-  have hBv := apply_ne_zero_of_co hB hd v hc
-  have hn : ‖B v‖⁻¹ ≠ 0 := inv_ne_zero (norm_ne_zero_iff.2 hBv)
+theorem inv_nxt (hB : IsDiagIn B b lam) (hd : Dominant lam D lam1 r) (v : E) (hc : 0 < head b D v) (q : ℝ)
+    (hq : tail b D v ≤ q * head b D v) :
+    0 < head b D (nxt B v) ∧ tail b D (nxt B v) ≤ (r * r * q) * head b D (nxt B v) := by
+  have hBv := apply_ne_zero_of_head hB hd v hc
+  have hn : 0 < ‖B v‖⁻¹ := inv_pos.2 (norm_pos_iff.2 hBv)
   unfold nxt
-  rw [co_smul, tail_smul, co_apply hB]
-  refine ⟨mul_ne_zero hn (mul_ne_zero (ne_of_gt hd.pos) hc), ?_⟩
+  rw [head_smul, tail_smul, head_apply hB hd]
+  refine ⟨mul_pos (mul_pos hn hn) (mul_pos (mul_pos hd.pos hd.pos) hc), ?_⟩
   have h1 := tail_apply_le hB hd v
   have hs : 0 ≤ ‖B v‖⁻¹ * ‖B v‖⁻¹ := mul_self_nonneg _
-  have hl : 0 ≤ (r * lam i0) * (r * lam i0) := mul_self_nonneg _
-  calc ‖B v‖⁻¹ * ‖B v‖⁻¹ * tail b i0 (B v)
-      ≤ ‖B v‖⁻¹ * ‖B v‖⁻¹ * ((r * lam i0) * (r * lam i0) * tail b i0 v) := mul_le_mul_of_nonneg_left h1 hs
-    _ ≤ ‖B v‖⁻¹ * ‖B v‖⁻¹ * ((r * lam i0) * (r * lam i0) * (q * (co b v i0 * co b v i0))) := by
+  have hl : 0 ≤ (r * lam1) * (r * lam1) := mul_self_nonneg _
+  calc ‖B v‖⁻¹ * ‖B v‖⁻¹ * tail b D (B v)
+      ≤ ‖B v‖⁻¹ * ‖B v‖⁻¹ * ((r * lam1) * (r * lam1) * tail b D v) := mul_le_mul_of_nonneg_left h1 hs
+    _ ≤ ‖B v‖⁻¹ * ‖B v‖⁻¹ * ((r * lam1) * (r * lam1) * (q * head b D v)) := by
         apply mul_le_mul_of_nonneg_left _ hs
         exact mul_le_mul_of_nonneg_left hq hl
-    _ = r * r * q * (‖B v‖⁻¹ * (lam i0 * co b v i0) * (‖B v‖⁻¹ * (lam i0 * co b v i0))) := by ring
+    _ = r * r * q * (‖B v‖⁻¹ * ‖B v‖⁻¹ * (lam1 * lam1 * head b D v)) := by ring
 
 /-- `⟨v, Bv⟩ = Σ lamᵢ cᵢ²` -/
 theorem inner_apply_eq_sum (hB : IsDiagIn B b lam) (v : E) :
@@ -154,59 +185,62 @@ theorem inner_apply_eq_sum (hB : IsDiagIn B b lam) (v : E) :
   rw [co_apply hB]; ring
 
 /-- Rayleigh quotient bounds under the invariant -/
-theorem rq_bounds (hB : IsDiagIn B b lam) (hd : Dominant lam i0 r) (v : E) (hc : co b v i0 ≠ 0) (q : ℝ)
-    (hq : tail b i0 v ≤ q * (co b v i0 * co b v i0)) :
-    rq B v ≤ lam i0 ∧ lam i0 - lam i0 * q ≤ rq B v := by
-  have hc2 : 0 < co b v i0 * co b v i0 := mul_self_pos.2 hc
-  have hN : ‖v‖ * ‖v‖ = co b v i0 * co b v i0 + tail b i0 v := by unfold tail; ring
-  have ht := tail_nonneg b i0 v
+theorem rq_bounds (hB : IsDiagIn B b lam) (hd : Dominant lam D lam1 r) (v : E) (hc : 0 < head b D v) (q : ℝ)
+    (hq : tail b D v ≤ q * head b D v) :
+    rq B v ≤ lam1 ∧ lam1 - lam1 * q ≤ rq B v := by
+  have hN : ‖v‖ * ‖v‖ = head b D v + tail b D v := by unfold tail; ring
+  have ht := tail_nonneg b D v
   have hNpos : 0 < ‖v‖ * ‖v‖ := by rw [hN]; linarith
   -- numerator split
   have hnum : inner ℝ v (B v) =
-      lam i0 * (co b v i0 * co b v i0) + ∑ i ∈ Finset.univ.erase i0, lam i * (co b v i * co b v i) := by
-    rw [inner_apply_eq_sum hB,
-      ← Finset.add_sum_erase Finset.univ (fun i => lam i * (co b v i * co b v i)) (Finset.mem_univ i0)]
-  have hrest_nonneg : 0 ≤ ∑ i ∈ Finset.univ.erase i0, lam i * (co b v i * co b v i) :=
+      lam1 * head b D v + ∑ i ∈ Dᶜ, lam i * (co b v i * co b v i) := by
+    rw [inner_apply_eq_sum hB, ← Finset.sum_add_sum_compl D (fun i => lam i * (co b v i * co b v i))]
+    congr 1
+    unfold head
+    rw [Finset.mul_sum]
+    apply Finset.sum_congr rfl
+    intro i hi
+    rw [hd.top i hi]
+  have hrest_nonneg : 0 ≤ ∑ i ∈ Dᶜ, lam i * (co b v i * co b v i) :=
     Finset.sum_nonneg (fun i hi =>
-      mul_nonneg (hd.others i (Finset.mem_erase.1 hi).1).1 (mul_self_nonneg _))
-  have hrest_le : ∑ i ∈ Finset.univ.erase i0, lam i * (co b v i * co b v i) ≤ lam i0 * tail b i0 v := by
+      mul_nonneg (hd.others i (Finset.mem_compl.1 hi)).1 (mul_self_nonneg _))
+  have hrest_le : ∑ i ∈ Dᶜ, lam i * (co b v i * co b v i) ≤ lam1 * tail b D v := by
     rw [tail_eq_sum, Finset.mul_sum]
     apply Finset.sum_le_sum
     intro i hi
-    obtain ⟨_, h1⟩ := hd.others i (Finset.mem_erase.1 hi).1
-    have : lam i ≤ lam i0 := le_trans h1 (by nlinarith [hd.pos, hd.r_le_one])
+    obtain ⟨_, h1⟩ := hd.others i (Finset.mem_compl.1 hi)
+    have : lam i ≤ lam1 := le_trans h1 (by nlinarith [hd.pos, hd.r_le_one])
     exact mul_le_mul_of_nonneg_right this (mul_self_nonneg _)
   unfold rq
   constructor
   · rw [div_le_iff₀ hNpos, hnum, hN]
     nlinarith
   · rw [le_div_iff₀ hNpos, hnum, hN]
-    -- (λ − λq)(c² + t) ≤ λ c² + rest ;  rest ≥ 0,  t ≤ q c²
     have hl := hd.pos
-    have h1 : lam i0 * tail b i0 v ≤ lam i0 * (q * (co b v i0 * co b v i0)) :=
+    have h1 : lam1 * tail b D v ≤ lam1 * (q * head b D v) :=
       mul_le_mul_of_nonneg_left hq (le_of_lt hl)
     have hq0 : 0 ≤ q := by
       by_contra hneg
       push Not at hneg
-      have : q * (co b v i0 * co b v i0) < 0 := mul_neg_of_neg_of_pos hneg hc2
+      have : q * head b D v < 0 := mul_neg_of_neg_of_pos hneg hc
       linarith
-    have h2 : 0 ≤ lam i0 * q * tail b i0 v := mul_nonneg (mul_nonneg (le_of_lt hl) hq0) ht
+    have h2 : 0 ≤ lam1 * q * tail b D v := mul_nonneg (mul_nonneg (le_of_lt hl) hq0) ht
     nlinarith
 
 /-- **The run of the loop under a spectral gap**: after `k+1` iterations started from a vector whose tail is
     at most `q` times its squared dominant component, the estimate `m` satisfies
-    `lam i0 − lam i0 · r^(2k) · q ≤ m ≤ lam i0`. -/
-theorem powerLoop_gap (hB : IsDiagIn B b lam) (hd : Dominant lam i0 r) :
-    ∀ (k : Nat) (mu : Option ℝ) (v : E) (q : ℝ), co b v i0 ≠ 0 →
-      tail b i0 v ≤ q * (co b v i0 * co b v i0) →
-      ∃ m, (powerLoop (opsOf B) (k + 1) mu v).1 = some m ∧ m ≤ lam i0 ∧
-        lam i0 - lam i0 * ((r * r) ^ k * q) ≤ m := by
+    `lam1 − lam1 · r^(2k) · q ≤ m ≤ lam1`. -/
+theorem powerLoop_gap (hB : IsDiagIn B b lam) (hd : Dominant lam D lam1 r) :
+    ∀ (k : Nat) (mu : Option ℝ) (v : E) (q : ℝ), 0 < head b D v →
+      tail b D v ≤ q * head b D v →
+      ∃ m, (powerLoop (opsOf B) (k + 1) mu v).1 = some m ∧ m ≤ lam1 ∧
+        lam1 - lam1 * ((r * r) ^ k * q) ≤ m := by
   intro k
   induction k with
   | zero =>
     intro mu v q hc hq
     refine ⟨rq B v, ?_, ?_⟩
-    · rw [powerLoop_succ_ne B 0 mu v (apply_ne_zero_of_co hB hd v hc)]; rfl
+    · rw [powerLoop_succ_ne B 0 mu v (apply_ne_zero_of_head hB hd v hc)]; rfl
     · have := rq_bounds hB hd v hc q hq
       simpa using this
   | succ k ih =>
@@ -214,40 +248,40 @@ theorem powerLoop_gap (hB : IsDiagIn B b lam) (hd : Dominant lam i0 r) :
     obtain ⟨hc', hq'⟩ := inv_nxt hB hd v hc q hq
     obtain ⟨m, hm, h1, h2⟩ := ih (some (rq B v)) (nxt B v) (r * r * q) hc' hq'
     refine ⟨m, ?_, h1, ?_⟩
-    · rw [powerLoop_succ_ne B (k + 1) mu v (apply_ne_zero_of_co hB hd v hc)]; exact hm
+    · rw [powerLoop_succ_ne B (k + 1) mu v (apply_ne_zero_of_head hB hd v hc)]; exact hm
     · have : (r * r) ^ k * (r * r * q) = (r * r) ^ (k + 1) * q := by ring
       rw [this] at h2
       exact h2
 
-/-- the smallest admissible `q` for a start `v`: `tail v / c²` -/
-theorem tail_le_ratio (v : E) (hc : co b v i0 ≠ 0) :
-    tail b i0 v ≤ (tail b i0 v / (co b v i0 * co b v i0)) * (co b v i0 * co b v i0) := by
+/-- the smallest admissible `q` for a start `v`: `tail v / head v` -/
+theorem tail_le_ratio (v : E) (hc : 0 < head b D v) :
+    tail b D v ≤ (tail b D v / head b D v) * head b D v := by
   rw [div_mul_cancel₀]
-  exact ne_of_gt (mul_self_pos.2 hc)
+  exact ne_of_gt hc
 
 /-- normalising the start changes neither the hypothesis nor the ratio -/
 theorem ratio_normalize (v0 : E) (hv0 : v0 ≠ 0) :
-    co b (‖v0‖⁻¹ • v0) i0 = ‖v0‖⁻¹ * co b v0 i0 ∧
-    tail b i0 (‖v0‖⁻¹ • v0) / (co b (‖v0‖⁻¹ • v0) i0 * co b (‖v0‖⁻¹ • v0) i0) =
-      tail b i0 v0 / (co b v0 i0 * co b v0 i0) := by
+    head b D (‖v0‖⁻¹ • v0) = ‖v0‖⁻¹ * ‖v0‖⁻¹ * head b D v0 ∧
+    tail b D (‖v0‖⁻¹ • v0) / head b D (‖v0‖⁻¹ • v0) = tail b D v0 / head b D v0 := by
   have hn : ‖v0‖⁻¹ ≠ 0 := inv_ne_zero (norm_ne_zero_iff.2 hv0)
-  refine ⟨co_smul b _ v0 i0, ?_⟩
-  rw [co_smul, tail_smul]
-  rw [show ‖v0‖⁻¹ * co b v0 i0 * (‖v0‖⁻¹ * co b v0 i0) = ‖v0‖⁻¹ * ‖v0‖⁻¹ * (co b v0 i0 * co b v0 i0) by ring]
-  rw [mul_div_mul_left _ _ (mul_ne_zero hn hn)]
+  refine ⟨head_smul b D _ v0, ?_⟩
+  rw [head_smul, tail_smul, mul_div_mul_left _ _ (mul_ne_zero hn hn)]
 
 /-- `power_iteration` with budget `k+1` under a spectral gap: explicit geometric error bound. -/
-theorem powerIteration_gap (hB : IsDiagIn B b lam) (hd : Dominant lam i0 r) (v0 : E) (hc0 : co b v0 i0 ≠ 0)
+theorem powerIteration_gap (hB : IsDiagIn B b lam) (hd : Dominant lam D lam1 r) (v0 : E) (hc0 : 0 < head b D v0)
     (k : Nat) (mu : ℝ) (v : E) (h : powerIteration (opsOf B) (k + 1) v0 = .ok (mu, v)) :
-    mu ≤ lam i0 ∧
-      lam i0 - lam i0 * ((r * r) ^ k * (tail b i0 v0 / (co b v0 i0 * co b v0 i0))) ≤ mu := by
+    mu ≤ lam1 ∧
+      lam1 - lam1 * ((r * r) ^ k * (tail b D v0 / head b D v0)) ≤ mu := by
   have hv0 : v0 ≠ 0 := by
     rintro rfl
-    exact hc0 (by simp [co])
+    rw [head_zero] at hc0
+    exact lt_irrefl _ hc0
   obtain ⟨_, hp⟩ := powerIteration_ok B (k + 1) v0 mu v h
-  obtain ⟨hco, hratio⟩ := ratio_normalize (b := b) (i0 := i0) v0 hv0
-  have hc : co b (‖v0‖⁻¹ • v0) i0 ≠ 0 := by
-    rw [hco]; exact mul_ne_zero (inv_ne_zero (norm_ne_zero_iff.2 hv0)) hc0
+  obtain ⟨hco, hratio⟩ := ratio_normalize (b := b) (D := D) v0 hv0
+  have hc : 0 < head b D (‖v0‖⁻¹ • v0) := by
+    rw [hco]
+    have : 0 < ‖v0‖⁻¹ := inv_pos.2 (norm_pos_iff.2 hv0)
+    exact mul_pos (mul_pos this this) hc0
   obtain ⟨m, hm, h1, h2⟩ := powerLoop_gap hB hd k none (‖v0‖⁻¹ • v0) _ hc (tail_le_ratio _ hc)
   rw [hp] at hm
   simp only [Option.some.injEq] at hm
@@ -256,19 +290,19 @@ theorem powerIteration_gap (hB : IsDiagIn B b lam) (hd : Dominant lam i0 r) (v0 
   exact ⟨h1, h2⟩
 
 /-- hence the estimates converge to the dominant eigenvalue when `r < 1` -/
-theorem powerIteration_tendsto (hB : IsDiagIn B b lam) (hd : Dominant lam i0 r) (hr : r < 1) (v0 : E)
-    (hc0 : co b v0 i0 ≠ 0) (mu : ℕ → ℝ)
+theorem powerIteration_tendsto (hB : IsDiagIn B b lam) (hd : Dominant lam D lam1 r) (hr : r < 1) (v0 : E)
+    (hc0 : 0 < head b D v0) (mu : ℕ → ℝ)
     (h : ∀ k, ∃ v, powerIteration (opsOf B) (k + 1) v0 = .ok (mu k, v)) :
-    Filter.Tendsto mu Filter.atTop (nhds (lam i0)) := by
-  set C := tail b i0 v0 / (co b v0 i0 * co b v0 i0) with hC
+    Filter.Tendsto mu Filter.atTop (nhds lam1) := by
+  set C := tail b D v0 / head b D v0 with hC
   have hrr : r * r < 1 := by nlinarith [hd.r_nonneg]
   have hrr0 : 0 ≤ r * r := mul_self_nonneg r
-  have hlow : Filter.Tendsto (fun k : ℕ => lam i0 - lam i0 * ((r * r) ^ k * C)) Filter.atTop (nhds (lam i0)) := by
+  have hlow : Filter.Tendsto (fun k : ℕ => lam1 - lam1 * ((r * r) ^ k * C)) Filter.atTop (nhds lam1) := by
     have h0 : Filter.Tendsto (fun k : ℕ => (r * r) ^ k) Filter.atTop (nhds 0) :=
       tendsto_pow_atTop_nhds_zero_of_lt_one hrr0 hrr
-    have h1 : Filter.Tendsto (fun k : ℕ => lam i0 * ((r * r) ^ k * C)) Filter.atTop (nhds (lam i0 * (0 * C))) :=
-      (h0.mul_const C).const_mul (lam i0)
-    have h2 := (tendsto_const_nhds (x := lam i0) (f := (Filter.atTop : Filter ℕ))).sub h1
+    have h1 : Filter.Tendsto (fun k : ℕ => lam1 * ((r * r) ^ k * C)) Filter.atTop (nhds (lam1 * (0 * C))) :=
+      (h0.mul_const C).const_mul lam1
+    have h2 := (tendsto_const_nhds (x := lam1) (f := (Filter.atTop : Filter ℕ))).sub h1
     simpa using h2
   refine tendsto_of_tendsto_of_tendsto_of_le_of_le hlow tendsto_const_nhds ?_ ?_
   · intro k
@@ -285,7 +319,7 @@ end gap
 section gramconv
 
 variable {F : Type} [NormedAddCommGroup F] [InnerProductSpace ℝ F]
-variable {B : E →L[ℝ] E} {A : E →L[ℝ] F} {b : OrthonormalBasis ι ℝ E} {lam : ι → ℝ} {i0 : ι} {r : ℝ}
+variable {B : E →L[ℝ] E} {A : E →L[ℝ] F} {b : OrthonormalBasis ι ℝ E} {lam : ι → ℝ} {D : Finset ι} {lam1 r : ℝ}
 
 /-- eigenvalues of a Gram operator are `‖A bᵢ‖² ≥ 0` -/
 theorem IsGram.eigen_eq (hG : IsGram B A) (hB : IsDiagIn B b lam) (i : ι) : lam i = ‖A (b i)‖ ^ 2 := by
@@ -297,12 +331,12 @@ theorem IsGram.eigen_nonneg (hG : IsGram B A) (hB : IsDiagIn B b lam) (i : ι) :
   rw [hG.eigen_eq hB i]; positivity
 
 /-- for a Gram operator the dominance hypothesis only needs the upper bounds -/
-theorem IsGram.dominant (hG : IsGram B A) (hB : IsDiagIn B b lam) (hpos : 0 < lam i0) (hr0 : 0 ≤ r) (hr1 : r ≤ 1)
-    (h : ∀ i, i ≠ i0 → lam i ≤ r * lam i0) : Dominant lam i0 r :=
-  ⟨hpos, hr0, hr1, fun i hi => ⟨hG.eigen_nonneg hB i, h i hi⟩⟩
+theorem IsGram.dominant (hG : IsGram B A) (hB : IsDiagIn B b lam) (hpos : 0 < lam1) (hr0 : 0 ≤ r) (hr1 : r ≤ 1)
+    (htop : ∀ i, i ∈ D → lam i = lam1) (h : ∀ i, i ∉ D → lam i ≤ r * lam1) : Dominant lam D lam1 r :=
+  ⟨hpos, hr0, hr1, htop, fun i hi => ⟨hG.eigen_nonneg hB i, h i hi⟩⟩
 
 /-- the largest eigenvalue of the Gram operator is the squared induced 2-norm of `A` -/
-theorem IsGram.opNorm_eq_sqrt (hG : IsGram B A) (hB : IsDiagIn B b lam) (hmax : ∀ i, lam i ≤ lam i0) :
+theorem IsGram.opNorm_eq_sqrt (hG : IsGram B A) (hB : IsDiagIn B b lam) (i0 : ι) (hmax : ∀ i, lam i ≤ lam i0) :
     ‖A‖ = Real.sqrt (lam i0) := by
   have hl0 : 0 ≤ lam i0 := hG.eigen_nonneg hB i0
   apply le_antisymm
